@@ -3,8 +3,9 @@
 import json, os, subprocess
 ROOT = os.path.dirname(os.path.dirname(os.path.abspath(__file__)))
 
-NOTE = ("Trusted: Coq 8.16.1 kernel (vm_compute, no native_compute), no axioms (Print Assumptions checked on every run), the skel translator (T1), "
-        "ExtrOcamlBasic extraction + OCaml driver, the Go/Python harness. Modelled, not verified: Go runtime, bash, kernel FS/FIFO semantics.")
+NOTE = ("Trusted: Coq 8.16.1 kernel (vm_compute, no native_compute), no axioms (Print Assumptions checked on every run), the skel translator (T1: control-flow skeletons and, via go/types, call cones -- C??_cone_conforms), "
+        "ExtrOcamlBasic extraction + OCaml driver, the Go/Python harness. Modelled, not verified: Go runtime, bash, kernel FS/FIFO semantics (rename is atomic within a file system). "
+        "COVERAGE.md lists, per function of scipipe, whether it has a reviewed skeleton, a T2 differential, lies in a call cone, or is tied to nothing.")
 
 # pid -> (technique, level text, design ref, extra note)
 CHECKS = {
